@@ -47,6 +47,11 @@ CHECKS = {
   "The history workload is executed lock-step (per-command arity, syntax, enhanced-code class, unique-token attribution of every backend verdict) and again as pipelined groups and randomly re-cut segments whose reply-code and callback sequences must equal the lock-step run; an overlap matrix enumerates all orders in which a parked delivery of an aborted chunked transaction, the completion of the next transaction and its delivery can happen (gates in the harness backend, no sleeps); control octets are injected at eight reply-echo sites.",
   "Reply wording and codes are judged only where the statement fixes them; 8-bit reply text not judged.",
   "DESIGN.md section 5 C04"),
+ "C19": ("exploration",
+  "runtime monitoring: ErrorLog tap for recovered panics, transport consumption counter, reply parser and backend log under boundary-length lines, endless lines, exhaustive short byte strings and seeded token soups",
+  "Lines of total length limit-2..limit+3 and 3*limit for three limits are placed at seven positions of a conversation (first line, later, MAIL line, inside an AUTH exchange, after DATA, after a non-LAST chunk, after a refused BDAT), in one and in two segments; endless LF-free input is fed in 512-octet segments while the transport counts what the server consumed before closing; every string of bounded length over nine hostile octets and seeded token soups are sent as command lines in five session states; error floods of 3..6 invalid commands in three mixes. A recovered panic in Server.ErrorLog, a crash of the child process, a wrong 500/close decision, unbounded consumption or a connection surviving the fourth invalid command is a violation.",
+  "Lines of exactly limit+1 octets are not judged; BDAT payload is sent in its own segment here because payload read ahead with its command line is the C05 known finding.",
+  "DESIGN.md section 5 C19"),
 }
 
 NOT_APPLICABLE = {
